@@ -94,6 +94,13 @@ def d2(ctx, F):
         te = K.try_edges(pf, fb[0])
         ok = pf.dominates(fb[0].bb, sf[0].bb) and te is not None and te[0] is not None and pf.dominates(te[0], sf[0].bb)
         ctx.check(ok, "C03.D2.partial-batch", "finish:flush_batch-not-first", "the partially filled batch is framed (flush_batch, error propagated) before the stream is finished", fb[0].span)
+    # the finish users actually call (on the reconnecting wrapper) is that one: it must not bypass the batch flush by closing the sink itself
+    kf = F.one_body(r"^selium::keep_alive::pubsub::KeepAlive::<selium::streams::pubsub::publisher::Publisher<E, Item>>::finish::\{closure#0\}$")
+    ctx.touch(kf)
+    deleg = [c for c in kf.calls() if strip_generics(c.t.get("resolved") or c.callee).startswith("selium::streams::pubsub::publisher::Publisher") and c.name() == "finish"]
+    aw = [a for a in flow.awaits(kf) if a.source is not None and a.source in deleg]
+    ctx.check(len(deleg) == 1 and len(aw) == 1, "C03.D2.partial-batch", "keepalive-finish:bypasses-publisher-finish",
+              "KeepAlive<Publisher>::finish awaits Publisher::finish (which frames the partial batch) rather than closing the sink itself", kf.span)
     # flush_batch really sends a non-empty batch
     fbb = F.body(PUB + "flush_batch")
     ctx.touch(fbb)
@@ -294,6 +301,7 @@ def d7(ctx, F):
 
 def run(ctx):
     F = ctx.facts("quick")
+    K.socket_pass_through(ctx, F, "C03.D8")
     d1(ctx, F)
     d2(ctx, F)
     d3(ctx, F)
